@@ -4,5 +4,5 @@ cd "$(dirname "$0")/.." || exit 2
 python3 tools/pyx2v.py "${PYTTB_SRC:-/repo}" coq/theories/Gen >/dev/null 2>&1 || cp coq/gen_baseline/*.v coq/theories/Gen/
 /venv/bin/python -c 'import sys; sys.path.insert(0, "tools"); import vcheck; vcheck.ensure_makefile()' || exit 2
 cd coq || exit 2
-timeout 3000 make -j16 2>&1 | grep -v '^Closed under the global context' | tail -40
+timeout 3000 make -k -j16 2>&1 | grep -v '^Closed under the global context' | tail -40
 test -f theories/Props/C17.vo
